@@ -98,12 +98,12 @@ func (c *compressor) decompressGzip(compressed []byte) (decompressed []byte, err
 	gzReader, e1 := gzip.NewReader(reader)
 
 	if e1 != nil {
-		return nil, err
+		return nil, e1
 	}
 
 	output, e2 := io.ReadAll(gzReader)
 	if e2 != nil {
-		return nil, err
+		return nil, e2
 	}
 
 	return output, nil
